@@ -2,7 +2,7 @@ import Zlink.Proofs.Server
 import Zlink.Proofs.ServerFair
 /-! Quiescence of the server loop: when no branch of the `select_biased!` can make progress (`iter`
     returns `none`, i.e. `Server::run` would return `Pending`), nobody waits in the listener queue, no
-    reply stream is open, and every well-behaved connection whose bytes have all arrived has had **all**
+    reply stream has a result ready (an open stream whose service has nothing to hand over is pending), and every well-behaved connection whose bytes have all arrived has had **all**
     its calls consumed. Together with the refinement invariant this turns "a prefix of the calls was
     answered" into "every call was answered". -/
 namespace Srv
@@ -26,7 +26,7 @@ theorem scan_none_all_pending (C : Consts) (sizes : Nat → Nat) (n start : Nat)
 
 theorem iter_none (C : Consts) (hstep : 0 < C.step) (sizes : Nat → Nat) (s : S) (g : GInv C s)
     (h : iter C sizes s = none) :
-    s.listenQ = [] ∧ s.streams = [] ∧
+    s.listenQ = [] ∧ (∀ p ∈ s.streams, p.2.credit = 0) ∧
     ∀ c ∈ s.conns, c.good = true → c.fut = [] → c.k = c.frames.length := by
   unfold iter at h
   cases hq : s.listenQ with
@@ -64,22 +64,39 @@ theorem iter_none (C : Consts) (hstep : 0 < C.step) (sizes : Nat → Nat) (s : S
             · split at h <;> simp at h
     · rename_i hscan
       constructor
-      · -- no open reply stream
+      · -- no reply stream has a result ready
         by_cases hm : s.streams.length = 0
-        · exact List.eq_nil_of_length_eq_zero hm
-        · exfalso
-          rw [if_neg (by simpa using hm)] at h
-          split at h
-          · simp at h
-            rename_i hnone
-            rw [List.getElem?_eq_none_iff] at hnone
-            exact absurd (Nat.mod_lt _ (show 0 < s.streams.length by omega)) (Nat.not_lt.mpr hnone)
-          · rename_i items c hp
-            cases items with
-            | nil => simp at h
-            | cons it rest =>
+        · intro p hp
+          rw [List.eq_nil_of_length_eq_zero hm] at hp; cases hp
+        · rw [if_neg (by simpa using hm)] at h
+          have hspec := Sel.scan_spec s.streams.length (streamStart s.lastStream) (streamReady s.streams)
+            (by omega) s.streams.length (Nat.le_refl _)
+          generalize hsel : Sel.scan s.streams.length (streamStart s.lastStream)
+              (streamReady s.streams) s.streams.length = sel at h hspec
+          cases sel with
+          | none =>
+            simp only [] at hspec
+            intro p hp
+            obtain ⟨j, hj⟩ := List.mem_iff_getElem?.mp hp
+            have hjn : j < s.streams.length := (List.getElem?_eq_some_iff.mp hj).1
+            have := hspec j hjn (by omega)
+            simp only [streamReady, hj, decide_eq_false_iff_not] at this
+            omega
+          | some idx =>
+            exfalso
+            simp only [] at h hspec
+            obtain ⟨hr, hlt, _, _⟩ := hspec
+            cases hst : s.streams[idx]? with
+            | none => simp [streamReady, hst] at hr
+            | some p =>
+              rw [hst] at h
+              obtain ⟨items, c0⟩ := p
               simp only [] at h
-              split at h <;> simp at h
+              cases items with
+              | nil => simp at h
+              | cons it rest =>
+                simp only [] at h
+                split at h <;> simp at h
       · intro c hc hg hfut
         by_cases hn : s.conns.length = 0
         · have := List.eq_nil_of_length_eq_zero hn
@@ -128,12 +145,14 @@ theorem iter_rotation (C : Consts) (sizes : Nat → Nat) (s s' : S) (hq : s.list
     · cases h
     · split at h
       · cases h
-      · rename_i items c hp
-        cases items with
-        | nil => simp only [Option.some.injEq] at h; rw [← h]
-        | cons it rest =>
-          simp only [] at h
-          split at h <;> (simp only [Option.some.injEq] at h; rw [← h])
+      · split at h
+        · cases h
+        · rename_i items c hp
+          cases items with
+          | nil => simp only [Option.some.injEq] at h; rw [← h]
+          | cons it rest =>
+            simp only [] at h
+            split at h <;> (simp only [Option.some.injEq] at h; rw [← h])
   | some x =>
     obtain ⟨idx, o, c⟩ := x
     rw [hsc] at h
@@ -163,4 +182,154 @@ theorem iter_rotation (C : Consts) (sizes : Nat → Nat) (s s' : S) (hq : s.list
           · simp only [Option.some.injEq] at h; rw [← h]
           · split at h <;> (simp only [Option.some.injEq] at h; rw [← h])
 
+end Srv
+
+namespace Srv
+open Rx
+
+/-- **The reply streams rotate exactly as `SelectAll` prescribes**: with nothing to accept and no call ready,
+    one iteration forwards a result of the stream `SelectAll` picks among the streams that have one ready,
+    started right after the previous stream winner, records it as the new previous winner and leaves the call
+    rotation alone. -/
+theorem iter_stream_rotation (C : Consts) (sizes : Nat → Nat) (s s' : S) (hq : s.listenQ = [])
+    (hnone : (if s.conns.length = 0 then (s.conns, none) else
+        scanCalls C sizes s.conns.length (nextStart s) s.conns.length s.conns).2 = none)
+    (h : iter C sizes s = some s') :
+    some s'.lastStream = (Sel.selectAll s.streams.length (some (streamStart s.lastStream)) (streamReady s.streams)).map some
+      ∧ s'.lastCall = s.lastCall := by
+  unfold iter at h
+  rw [hq] at h
+  simp only [] at h
+  generalize (if s.conns.length = 0 then (s.conns, none) else
+        scanCalls C sizes s.conns.length (nextStart s) s.conns.length s.conns) = sc at h hnone
+  obtain ⟨cs, w⟩ := sc
+  simp only [] at hnone
+  subst hnone
+  simp only [] at h
+  by_cases hm : s.streams.length = 0
+  · rw [if_pos hm] at h; cases h
+  · rw [if_neg hm] at h
+    have hsa : Sel.selectAll s.streams.length (some (streamStart s.lastStream)) (streamReady s.streams)
+        = Sel.scan s.streams.length (streamStart s.lastStream) (streamReady s.streams) s.streams.length := by
+      simp [Sel.selectAll, hm]
+    rw [hsa]
+    generalize Sel.scan s.streams.length (streamStart s.lastStream) (streamReady s.streams) s.streams.length = sel at h
+    cases sel with
+    | none => cases h
+    | some idx =>
+      simp only [] at h
+      split at h
+      · cases h
+      · rename_i items c0 hp
+        cases items with
+        | nil => simp only [Option.some.injEq] at h; rw [← h]; exact ⟨rfl, rfl⟩
+        | cons it rest =>
+          simp only [] at h
+          split at h <;> (simp only [Option.some.injEq] at h; rw [← h]; exact ⟨rfl, rfl⟩)
+
+/-- Polling a reply stream that has nothing ready changes nothing: `streamReady` reads the state, it does not
+    write it, and the stream branch of `iter` touches only the winner — every other entry of `streams` is the
+    same object afterwards (possibly at the position `swap_remove` moved it to). -/
+theorem iter_streams_others_untouched (C : Consts) (sizes : Nat → Nat) (s s' : S)
+    (h : iter C sizes s = some s') :
+    ∀ p ∈ s.streams, p.2.credit = 0 → p ∈ s'.streams := by
+  intro p hp hcr
+  unfold iter at h
+  cases hq : s.listenQ with
+  | cons c q => rw [hq] at h; simp only [Option.some.injEq] at h; rw [← h]; exact hp
+  | nil =>
+    rw [hq] at h
+    simp only [] at h
+    generalize (if s.conns.length = 0 then (s.conns, none) else
+          scanCalls C sizes s.conns.length (nextStart s) s.conns.length s.conns) = sc at h
+    obtain ⟨cs, w⟩ := sc
+    cases w with
+    | some x =>
+      obtain ⟨idx, o, c⟩ := x
+      simp only [] at h
+      cases o with
+      | pending => simp only [Option.some.injEq] at h; rw [← h]; exact hp
+      | err e => simp only [Option.some.injEq] at h; rw [← h]; exact hp
+      | frame f =>
+        simp only [] at h
+        cases hc : c.calls with
+        | nil => rw [hc] at h; simp only [Option.some.injEq] at h; rw [← h]; exact hp
+        | cons d rest =>
+          rw [hc] at h
+          simp only [] at h
+          cases d with
+          | garbage => simp only [Option.some.injEq] at h; rw [← h]; exact hp
+          | sub m pt => simp only [Option.some.injEq] at h; rw [← h]; exact List.mem_append_left _ hp
+          | echo v ow =>
+            simp only [] at h
+            split at h
+            · simp only [Option.some.injEq] at h; rw [← h]; exact hp
+            · split at h <;> (simp only [Option.some.injEq] at h; rw [← h]; exact hp)
+          | fail ow =>
+            simp only [] at h
+            split at h
+            · simp only [Option.some.injEq] at h; rw [← h]; exact hp
+            · split at h <;> (simp only [Option.some.injEq] at h; rw [← h]; exact hp)
+    | none =>
+      simp only [] at h
+      by_cases hm : s.streams.length = 0
+      · rw [if_pos hm] at h; cases h
+      · rw [if_neg hm] at h
+        have hspec := Sel.scan_spec s.streams.length (streamStart s.lastStream) (streamReady s.streams)
+          (by omega) s.streams.length (Nat.le_refl _)
+        generalize Sel.scan s.streams.length (streamStart s.lastStream) (streamReady s.streams) s.streams.length = sel at h hspec
+        cases sel with
+        | none => cases h
+        | some idx =>
+          simp only [] at h hspec
+          obtain ⟨hr, hlt, _, _⟩ := hspec
+          obtain ⟨j, hj⟩ := List.mem_iff_getElem?.mp hp
+          have hjn : j < s.streams.length := (List.getElem?_eq_some_iff.mp hj).1
+          -- the winner is ready, `p` is not: they sit at different positions
+          have hne : j ≠ idx := by
+            intro e; subst e
+            simp [streamReady, hj, hcr] at hr
+          have hsr : p ∈ swapRemove s.streams idx := by
+            unfold swapRemove
+            cases hl : s.streams.getLast? with
+            | none =>
+              have := List.getLast?_eq_none_iff.mp hl
+              rw [this] at hm; simp at hm
+            | some last =>
+              simp only []
+              have hlast : s.streams[s.streams.length - 1]? = some last := by
+                rw [← List.getLast?_eq_getElem?]; exact hl
+              by_cases hi : idx + 1 = s.streams.length
+              · rw [if_pos hi]
+                apply List.mem_iff_getElem?.mpr
+                refine ⟨j, ?_⟩
+                rw [List.getElem?_dropLast, if_pos (by omega)]
+                exact hj
+              · rw [if_neg hi]
+                by_cases hjl : j + 1 = s.streams.length
+                · -- `p` is the last element: it moves to position `idx`
+                  have hpl : p = last := by
+                    have : s.streams[j]? = some last := by
+                      have : j = s.streams.length - 1 := by omega
+                      rw [this]; exact hlast
+                    rw [hj] at this; exact Option.some.inj this
+                  apply List.mem_iff_getElem?.mpr
+                  refine ⟨idx, ?_⟩
+                  rw [List.getElem?_dropLast, if_pos (by simp; omega), List.getElem?_set_self hlt, hpl]
+                · apply List.mem_iff_getElem?.mpr
+                  refine ⟨j, ?_⟩
+                  rw [List.getElem?_dropLast, if_pos (by simp; omega), List.getElem?_set_ne (Ne.symm hne)]
+                  exact hj
+          split at h
+          · cases h
+          · rename_i items c0 hpw
+            cases items with
+            | nil => simp only [Option.some.injEq] at h; rw [← h]; exact hsr
+            | cons it rest =>
+              simp only [] at h
+              split at h
+              · simp only [Option.some.injEq] at h; rw [← h]
+                apply List.mem_iff_getElem?.mpr
+                exact ⟨j, by rw [List.getElem?_set_ne (Ne.symm hne)]; exact hj⟩
+              · simp only [Option.some.injEq] at h; rw [← h]; exact hsr
 end Srv
